@@ -1962,10 +1962,16 @@ func (p *Parser) hasTrailingClosure() bool {
 			p.acceptSecond(token.PUBLIC_IDENTIFIER, token.PRIVATE_IDENTIFIER) && p.acceptThird(token.OR, token.COMMA, token.COLON)))
 }
 
-// beginlessRangeLiteral = ("..." | "<.<" | "<.." | "..<") constructorCall
+// beginlessRangeLiteral = ("..." | "<.<" | "<.." | "..<") (constructorCall | ("-" | "+") unaryExpression)
 func (p *Parser) beginlessRangeLiteral() ast.ExpressionNode {
 	op := p.advance()
-	right := p.constructorCall()
+	var right ast.ExpressionNode
+	if p.accept(token.MINUS, token.PLUS) {
+		// a signed end like in `...-1`, the same end that `1...-1` accepts
+		right = p.unaryExpression()
+	} else {
+		right = p.constructorCall()
+	}
 	return ast.NewRangeLiteralNode(
 		op.Location().Join(right.Location()),
 		op,
